@@ -69,7 +69,7 @@ CHECKS = {
     "C13": dict(level="exploration", jobs=[J("TestC13Codec", (4, 15000), (16, 150000)), J("TestC13Hist", (2, 800), (8, 6000), steps=40), J("FuzzParseDifferential", (0, 0), (1, 60), kind="fuzz")],
                 rule="codec job: one case = up to 5 generated messages (key/value 0..300 B plus 4 KiB/70 KiB, times over the whole int64 microsecond range, offsets up to MaxInt64) x V1/V2 x file/mmap reader x four index layouts x both index containers: writer bytes == independent encoder for log and index, reported positions, Size, readers on independently encoded files, parser agreement on a damaged copy; history job: Stat and Log.Size against os.Stat after every step; non-trivial codec case = >=2 records or an empty key/value or a boundary time; history case = multi-segment with deletes; distinct by case hash"),
     "C14": dict(level="fault_enumeration", jobs=[J("TestC14", (4, 40), (16, 20)), J("FuzzDamageRead", (0, 0), (1, 90), kind="fuzz")],
-                rule="one evaluation = one damage of one .log file of a generated multi-segment V2 log (4..14 messages, deletes, index files intact): bit flip, 1-8 byte overwrite, truncation, zero-filled tail (quick: one position per record field + length-field high bits + 5 cut points per record; thorough: every position, all bits), then a fresh Open and Get/Consume at every offset, GetByKey/ConsumeByKey for every key, GetByTime at every microsecond, each compared with the same call on the undamaged copy and the model (safety, must-fail, unchanged, no panic, <=128 MiB per call); non-trivial = damage inside a record; distinct by (log hash, damage, field hit, segment role). Thorough adds a 90 s coverage-guided campaign (FuzzDamageRead: log x segment x position x 1-8 bytes) under the same oracle"),
+                rule="one evaluation = one damage of one .log file of a generated multi-segment V2 log (4..14 messages, deletes, index files intact): bit flip, 1-8 byte overwrite, truncation, zero-filled tail (quick: one position per record field + length-field high bits + 5 cut points per record; thorough: every position, all bits), then a fresh Open and Get/Consume at every offset, GetByKey/ConsumeByKey for every key, GetByTime at every microsecond, each compared with the same call on the undamaged copy and the model (safety, must-fail, unchanged, no panic, <=256 MiB per call); non-trivial = damage inside a record; distinct by (log hash, damage, field hit, segment role). Thorough adds a 90 s coverage-guided campaign (FuzzDamageRead: log x segment x position x 1-8 bytes) under the same oracle"),
     "C18": dict(level="exploration", jobs=[J("TestC18", (4, 10000), (16, 100000)), J("TestC18Exhaustive", (3, 0), (8, 0), kind="plain", timeout=(900, 5400)), J("TestC18Free", (2, 300), (8, 3000))],
                 rule="one evaluation = one complete schedule of a cooperative scheduler inside a testing/synctest bubble: up to 8 waiters (ConsumeBlocking / ConsumeByKeyBlocking, raw and typed wrappers, offsets below/at/above NextOffset and relative), up to 3 publishers (incl. empty batches), cancellations and Close; every goroutine parks at each pause point of the notifier and the blocking wrappers, and each step (resume one parked goroutine / start a call / cancel / Close) is a rapid draw; additionally the complete choice tree is enumerated with an odometer for W=1,P=1 (plain, +cancel, +close, typed), W=1,P=0 (+cancel+close), W=1,P=2 (thorough: W=2,P=1 and W=2,P=1+close), and seeded free-running mixes run without pauses; oracle at every step: a returned waiter had a reason (offset below NextOffset / relative / overlapping Publish, Close, cancel), its result equals what Consume returned at the moment it left the wait, and at FULL quiescence no waiter is blocked that a completed Publish passed, whose context ended, or after Close completed; non-trivial = a Publish-notify, Close or cancel step was taken while a waiter stood between the fast-path check and its park; distinct by (configuration, choice sequence)",
                 level_note="interleavings at the granularity of the listed pause points (verif build tag); Go's select between two simultaneously ready wake-up causes is resolved by the runtime, not by the scheduler; virtual time, no wall clock"),
